@@ -467,3 +467,39 @@ func ServerHelloMsg(hrr bool, sessionID []byte, exts []Ext) []byte {
 	b = append(b, vec16(ExtsBytes(exts))...)
 	return HandshakeMsg(2, b)
 }
+
+// Fragment splits a handshake message over records at the given message offsets (ascending; none = one record).
+func Fragment(version uint16, msg []byte, cuts ...int) []byte {
+	var out []byte
+	prev := 0
+	for _, c := range append(cuts, len(msg)) {
+		if c <= prev || c > len(msg) {
+			continue
+		}
+		out = append(out, Record(22, version, msg[prev:c])...)
+		prev = c
+	}
+	return out
+}
+
+// FragmentMax splits a handshake message into records of at most 16384 bytes (what RFC 8446 §5.1 prescribes for large messages).
+func FragmentMax(version uint16, msg []byte) []byte {
+	var cuts []int
+	for o := 16384; o < len(msg); o += 16384 {
+		cuts = append(cuts, o)
+	}
+	return Fragment(version, msg, cuts...)
+}
+
+// HandshakeBytes concatenates the payloads of the leading handshake records of a stream and returns the rest.
+func HandshakeBytes(stream []byte, msgLen int) (msg, rest []byte) {
+	for len(stream) >= 5 && stream[0] == 22 && len(msg) < msgLen {
+		n := int(stream[3])<<8 | int(stream[4])
+		if len(stream) < 5+n {
+			break
+		}
+		msg = append(msg, stream[5:5+n]...)
+		stream = stream[5+n:]
+	}
+	return msg, stream
+}
